@@ -48,11 +48,11 @@ def Matches (isCase isRe : Bool) (p v : Str) : Prop :=
 def Absolute (isCase isRe : Bool) (p : Str) : Prop :=
   isCase = true ∧ isRe = false ∧ ∀ ch ∈ p, ch ≠ '*' ∧ ch ≠ '?'
 
-/-- the documented exception: where a case-insensitive index serves the key (identifiers under the
-    EDIF policy), an absolute pattern compares ignoring case. -/
+/-- identifiers under the EDIF policy (`c.ci`) compare case-insensitively when the pattern is an exact
+    string (the property's documented exception); everything else is `Matches`. -/
 def MatchesCfg (c : Cfg) (p v : Str) : Prop :=
-  ((Absolute c.isCase c.isRe p ∧ c.indexed = true ∧ c.ci = true) ∧ lower v = lower p) ∨
-  (¬ (Absolute c.isCase c.isRe p ∧ c.indexed = true ∧ c.ci = true) ∧ Matches c.isCase c.isRe p v)
+  ((Absolute c.isCase c.isRe p ∧ c.ci = true) ∧ lower v = lower p) ∨
+  (¬ (Absolute c.isCase c.isRe p ∧ c.ci = true) ∧ Matches c.isCase c.isRe p v)
 
 /-- the elements of the unfiltered result whose value matches some pattern -/
 def filterSpec (c : Cfg) (cands : List Cand) (pats : List Str)
@@ -74,14 +74,28 @@ def UniqueKeys (c : Cfg) (g : List Cand) : Prop := (g.filterMap (indexKey c)).No
 def HypFound (cands : List Cand) (pats : List Str) : Prop :=
   cands.Nodup ∧ (AllKeyed cands ∨ [] ∉ pats)
 
-def HypDirect (c : Cfg) (keyed : Bool) (groups : List (List Cand)) (pats : List Str) : Prop :=
-  groups.flatten.Nodup ∧
-  (c.indexed = true → ∀ g ∈ groups, UniqueKeys c g) ∧
-  (AllKeyed groups.flatten ∨ (keyed = false ∧ [] ∉ pats))
+/-- `keyed` = get_instances: children lacking the key are never looked at by the direct stage -/
+def keyedPart (keyed : Bool) (l : List Cand) : List Cand :=
+  if keyed then l.filter (fun e => e.key.isSome) else l
 
-def HypPipeline (c : Cfg) (keyed : Bool) (groups : List (List Cand)) (others : List Cand)
+/-- hypotheses of the direct stage: every visited parent lists a child once (the same parent may be
+    visited several times and parents may overlap), sibling keys are unique where an index answers,
+    and -- except for get_instances, which skips them -- children lacking the key are not asked for
+    the empty pattern -/
+def HypDirect (c : Cfg) (keyed : Bool) (groups : List (List Cand)) (pats : List Str) : Prop :=
+  (∀ g ∈ groups, g.Nodup) ∧
+  (c.indexed = true → ∀ g ∈ groups, UniqueKeys c g) ∧
+  (keyed = true ∨ AllKeyed groups.flatten ∨ [] ∉ pats)
+
+/-- a whole query needs nothing more (the second-stage elements may repeat and overlap the groups) -/
+def HypPipeline (c : Cfg) (keyed : Bool) (groups : List (List Cand)) (_others : List Cand)
     (pats : List Str) : Prop :=
-  HypDirect c keyed groups pats ∧ ((c.indexed = true ∧ c.ci = true) → others = [])
+  HypDirect c keyed groups pats
+
+/-- where the code is as case-insensitive as the documentation says: no such key, or the index
+    answers and no element comes through the second stage -/
+def CiConsistent (c : Cfg) (others : List Cand) : Prop :=
+  c.ci = true → (c.indexed = true ∧ others = [])
 
 instance (l : List Cand) : Decidable (AllKeyed l) := by unfold AllKeyed; exact inferInstance
 instance (c : Cfg) (g : List Cand) : Decidable (UniqueKeys c g) := by
@@ -93,5 +107,7 @@ instance (c : Cfg) (keyed : Bool) (groups : List (List Cand)) (pats : List Str) 
 instance (c : Cfg) (keyed : Bool) (groups : List (List Cand)) (others : List Cand)
     (pats : List Str) : Decidable (HypPipeline c keyed groups others pats) := by
   unfold HypPipeline; exact inferInstance
+instance (c : Cfg) (others : List Cand) : Decidable (CiConsistent c others) := by
+  unfold CiConsistent; exact inferInstance
 
 end Spydr.Query.Spec
